@@ -3,6 +3,7 @@ import Reduino.Lang.InF
 import Reduino.Lemmas.C01
 import Reduino.Lang.Tr2
 import Reduino.Lemmas.C01p
+import Reduino.GenOb.Ops
 /-
   C01 — Reject-or-preserve: firmware behaves as the Python source says (core language).
 
@@ -12,20 +13,46 @@ import Reduino.Lemmas.C01p
   loop() passes.  It is FALSE of the current transpiler outside the fragment `InF` (see the `…_counterexample`
   theorems and known findings K01a–K01j); proved part: `C01_partial`, all programs of `InF`, all N.
   C `int` overflow is undefined behaviour: the conclusion allows the C run to report `overflow` instead.
+  `//` and `%` are emitted as C's `/` and `%`, which differ from Python's on operands of opposite sign (K01b, K01c):
+  the C semantics has two readings (`C.Mode`).  The theorems speak about the STRICT reading (the default argument),
+  in which a `/` or `%` with a negative dividend or divisor stops the run with `signedDiv`, and allow that outcome
+  next to `overflow`; a strict run that succeeds is a run of the RAW reading, C's own (`strict_run_is_raw_run`).
+  The witnesses `floor_division_negative_counterexample`, `modulo_negative_counterexample` and `C01_statement`
+  itself are stated on the raw reading.
+  Expression language of the fragment (W1): int/bool values, `+ - *`, bitwise `& | ^` (Python's two's-complement
+  semantics on unbounded ints; `& | ^` of two bools is a bool), `//` and `%` (Python: floor / sign of the divisor,
+  ZeroDivisionError on a zero divisor), `abs(e)`, `min(a, b)` / `max(a, b)` over int-typed operands (C side: the
+  Arduino macros, with the overflow check on the negation inside `abs`), unary minus, comparisons, and/or/not,
+  conditional expressions.  The operator tokens `Render` prints are tied to the transpiler's `_BIN`/`_UN`/`_CMP` tables by the
+  obligations of `GenOb/Ops.lean`.
 -/
 namespace Reduino.Props.C01
 open Reduino.Lang
 
-/-- the property as stated (for the modelled syntax) -/
+/-- the property as stated (for the modelled syntax), on the raw reading of the C semantics (C's own `/` and `%`) -/
 def C01_statement : Prop :=
   ∀ (p : Prog) (c : CProg) (N fuel : Nat) (t : List Ev),
-    tr p = .ok c → Py.run p N fuel = .ok t → ∃ fuel', C.run c N fuel' = .ok t
+    tr p = .ok c → Py.run p N fuel = .ok t → ∃ fuel', C.run c N fuel' .raw = .ok t
 
-/-- translation correctness on the fragment, for every program, every N -/
+/-- translation correctness on the fragment, for every program, every N (strict reading of `/`, `%`) -/
 theorem C01_partial (p : Prog) (c : CProg) (N fuel : Nat) (t : List Ev)
     (hin : InF p = true) (htr : tr p = .ok c) (hpy : Py.run p N fuel = .ok t) :
-    ∃ fuel', C.run c N fuel' = .ok t ∨ C.run c N fuel' = .error .overflow :=
+    ∃ fuel', C.run c N fuel' = .ok t ∨ C.run c N fuel' = .error .overflow ∨ C.run c N fuel' = .error .signedDiv :=
   Reduino.Lemmas.C01.C01_partial_aux p c N fuel t hin htr hpy
+
+/-- the strict reading only ever stops EARLIER than C: a strict run that ends `.ok t` is a raw run ending `.ok t` -/
+theorem strict_run_is_raw_run (c : CProg) (N fuel : Nat) (t : List Ev) (h : C.run c N fuel = .ok t) :
+    C.run c N fuel .raw = .ok t :=
+  Reduino.Lemmas.C01.run_strict_raw c N fuel t h
+
+/-- hence, on the fragment: the sketch — with C's own `/` and `%` — yields the Python trace, unless the strict run met a signed
+    overflow or a division with a negative operand -/
+theorem C01_partial_raw (p : Prog) (c : CProg) (N fuel : Nat) (t : List Ev)
+    (hin : InF p = true) (htr : tr p = .ok c) (hpy : Py.run p N fuel = .ok t) :
+    ∃ fuel', C.run c N fuel' .raw = .ok t ∨ C.run c N fuel' = .error .overflow ∨ C.run c N fuel' = .error .signedDiv := by
+  obtain ⟨fuel', h | h⟩ := C01_partial p c N fuel t hin htr hpy
+  · exact ⟨fuel', .inl (strict_run_is_raw_run c N fuel' t h)⟩
+  · exact ⟨fuel', .inr h⟩
 
 /-- a `break` that would leave the main loop is always rejected, through any nesting of `if` -/
 def breaksOut : Stmt → Bool
@@ -76,7 +103,7 @@ theorem expr_preserved (te : C.TyEnv) (sp sc : Store) (e : Expr) (v : Val)
     (hwt : e.wt te = true)
     (hrel : ∀ x t, te.lookup x = some t → ∀ pv, sp.get x = some pv → sc.get x = some (C.conv t pv) ∧ (t = .bool → ∃ b, pv = .bool b))
     (hpy : Py.eval sp e = .ok v) :
-    C.eval te sc e = .ok (C.conv (inferTy te e) v) ∨ C.eval te sc e = .error .overflow :=
+    C.eval te sc e = .ok (C.conv (inferTy te e) v) ∨ C.eval te sc e = .error .overflow ∨ C.eval te sc e = .error .signedDiv :=
   Reduino.Lemmas.C01.expr_sim te sp sc hrel e v hwt hpy
 
 /-! ### the full statement fails outside the fragment -/
@@ -97,9 +124,43 @@ theorem range_limit_counterexample :
   intro p
   exact ⟨by rfl, _, rfl, by rfl⟩
 
+/-- `//` on operands of opposite sign: Python floors, the emitted `/` truncates (K01b).  Raw reading; the strict reading stops. -/
+theorem floor_division_negative_counterexample :
+    let p : Prog := { pre := .seq (.assign "x" (.int 7)) (.seq (.assign "y" (.neg (.int 2)))
+                        (.write (.bin .fdiv (.var "x") (.var "y")))), body := none }
+    Py.run p 0 50 = .ok [.write (-4)] ∧
+      (∃ c, tr p = .ok c ∧ C.run c 0 50 .raw = .ok [.write (-3)] ∧ C.run c 0 50 = .error .signedDiv) := by
+  intro p
+  exact ⟨by rfl, _, rfl, by rfl, by rfl⟩
+
+/-- `%` with a negative dividend: Python's result has the sign of the divisor, C's the sign of the dividend (K01c) -/
+theorem modulo_negative_counterexample :
+    let p : Prog := { pre := .seq (.assign "x" (.neg (.int 7))) (.seq (.assign "y" (.int 3))
+                        (.write (.bin .fmod (.var "x") (.var "y")))), body := none }
+    Py.run p 0 50 = .ok [.write 2] ∧
+      (∃ c, tr p = .ok c ∧ C.run c 0 50 .raw = .ok [.write (-1)] ∧ C.run c 0 50 = .error .signedDiv) := by
+  intro p
+  exact ⟨by rfl, _, rfl, by rfl, by rfl⟩
+
+/-- a zero divisor: Python raises ZeroDivisionError (the theorems' premise excludes the run); in C it is undefined behaviour -/
+theorem zero_divisor_raises :
+    let p : Prog := { pre := .seq (.assign "x" (.int 7)) (.seq (.assign "y" (.int 0))
+                        (.write (.bin .fmod (.var "x") (.var "y")))), body := none }
+    Py.run p 0 50 = .error .zeroDiv ∧ (∃ c, tr p = .ok c ∧ C.run c 0 50 .raw = .error .zeroDiv) := by
+  intro p
+  exact ⟨by rfl, _, rfl, by rfl⟩
+
 theorem C01_statement_false : ¬ C01_statement := by
   intro h
   obtain ⟨hpy, c, htr, hc⟩ := and_or_value_counterexample
+  obtain ⟨fuel', hc'⟩ := h _ c 0 50 _ htr hpy
+  have := Reduino.Lemmas.C01.C_run_det (strict_run_is_raw_run _ _ _ _ hc) hc'
+  exact absurd this (by decide)
+
+/-- …and of the division operators alone: the raw run of the floor-division witness prints -3 where Python prints -4 -/
+theorem C01_statement_false_by_division : ¬ C01_statement := by
+  intro h
+  obtain ⟨hpy, c, htr, hc, _⟩ := floor_division_negative_counterexample
   obtain ⟨fuel', hc'⟩ := h _ c 0 50 _ htr hpy
   have := Reduino.Lemmas.C01.C_run_det hc hc'
   exact absurd this (by decide)
@@ -111,6 +172,38 @@ example :
     InF p = true ∧ (∃ c, tr p = .ok c) ∧ Py.run p 3 50 = .ok [.write 4, .write 5] := by
   intro p
   exact ⟨by decide, ⟨_, rfl⟩, by rfl⟩
+
+/-- non-vacuity (W1, stage 1): bitwise operators on negative ints and on bools, `^=`, accepted and run -/
+example :
+    let p : Prog := { pre := .seq (.assign "a" (.neg (.int 7))) (.seq (.assign "f" (.cmp .lt (.int 1) (.int 2)))
+                        (.write (.bin .add (.bin .band (.var "f") (.bool true)) (.bin .bor (.var "a") (.int 12))))),
+                      body := some (.seq (.aug "a" .bxor (.int 12)) (.write (.bin .band (.var "a") (.int 255)))) }
+    InF p = true ∧ (∃ c, tr p = .ok c) ∧ Py.run p 2 50 = .ok [.write (-2), .write 245, .write 249] := by
+  intro p
+  exact ⟨by decide, ⟨_, rfl⟩, by rfl⟩
+
+/-- non-vacuity (W1, stage 2): `abs`, `min`, `max` (a three-argument `max` is the left fold), in a constant initialiser, a
+    folded `sleep` argument and at run time -/
+example :
+    let p : Prog := { pre := .seq (.assign "a" (.abs (.neg (.int 4)))) (.seq (.assign "b" (.neg (.int 9)))
+                        (.seq (.sleep (.mm .min (.int 30) (.abs (.neg (.int 20)))))
+                              (.write (.mm .max (.mm .max (.var "b") (.int 3)) (.var "a"))))),
+                      body := some (.seq (.aug "b" .add (.int 7)) (.write (.bin .sub (.abs (.var "b")) (.mm .min (.var "a") (.var "b"))))) }
+    InF p = true ∧ (∃ c, tr p = .ok c) ∧ Py.run p 2 50 = .ok [.delay 20, .write 4, .write 4, .write 1] := by
+  intro p
+  exact ⟨by decide, ⟨_, rfl⟩, by rfl⟩
+
+/-- non-vacuity (W1, stage 3): `//`, `%`, `//=` on non-negative dividends and positive divisors (a folded constant initialiser, a
+    folded `sleep` argument, run-time values): accepted, and the STRICT run of the sketch yields the Python trace -/
+example :
+    let p : Prog := { pre := .seq (.assign "a" (.bin .fdiv (.int 47) (.int 5))) (.seq (.assign "k" (.int 3))
+                        (.seq (.sleep (.bin .fmod (.int 47) (.int 10)))
+                              (.write (.bin .add (.bin .fmod (.var "a") (.var "k")) (.bin .fdiv (.var "a") (.var "k")))))),
+                      body := some (.seq (.aug "a" .fdiv (.int 2)) (.write (.bin .fmod (.bin .mul (.var "a") (.int 7)) (.var "k")))) }
+    InF p = true ∧ (∃ c, tr p = .ok c ∧ C.run c 2 50 = .ok [.delay 7, .write 3, .write 1, .write 2]) ∧
+      Py.run p 2 50 = .ok [.delay 7, .write 3, .write 1, .write 2] := by
+  intro p
+  exact ⟨by decide, ⟨_, rfl, by rfl⟩, by rfl⟩
 
 /-! ### promotion: names first assigned inside a top-level branch or loop body of the prologue (`tr2`, Lang/Tr2.lean) -/
 
@@ -128,7 +221,7 @@ theorem InF_subset_InF2 (p : Prog) (hin : InF p = true) : InF2 p = true :=
     (in particular it never reads a hoisted name before assigning it), the sketch produces the same trace -/
 theorem C01_partial_promotion (p : Prog) (c : CProg) (N fuel : Nat) (t : List Ev)
     (hin : InF2 p = true) (htr : tr2 p = .ok c) (hpy : Py.run p N fuel = .ok t) :
-    ∃ fuel', C.run c N fuel' = .ok t ∨ C.run c N fuel' = .error .overflow :=
+    ∃ fuel', C.run c N fuel' = .ok t ∨ C.run c N fuel' = .error .overflow ∨ C.run c N fuel' = .error .signedDiv :=
   Reduino.Lemmas.C01p.C01_partial_promotion_aux p c N fuel t hin htr hpy
 
 /-- a hoisted name read before its first assignment: Python raises NameError, the sketch prints the default 0 —
